@@ -259,7 +259,7 @@ def gen_case(rng, tier, ctx, i):
         if rng.random() < 0.4:
             rec = {"k": rng.choice(["All", "Any"]), "id": None, "args": [rec, leaf("w")]}
         return {"recipe": rec, "top_call": True}
-    o = common.varied_opts(rng, tier, p_share=0.05, p_copy=0.05)
+    o = common.varied_opts(rng, tier, p_share=0.05, p_copy=0.05, p_huge=0.05)
     if rng.random() < 0.3:
         o.kinds = ["AtLeast", "AtLeastS", "XNor", "Imply", "Not", "AtMost", "Xor", "ExactlyOne"]
     rec = common.model_case(rng, tier, o)
@@ -271,8 +271,9 @@ def gen_case(rng, tier, ctx, i):
 def run_case(case, ctx):
     c14.clear_caches()
     m = recipes.fresh(case["recipe"])
-    if adapters.is_leaf(m) or adapters.validated(m) is None:
+    if adapters.is_leaf(m):
         raise monitor.OutOfScope()
+    common.domain(m, recipe=case["recipe"])          # validated, and the leaves carry the bounds they were declared with (what is written is then the declared model)
     for n in refmodel.recipe_nodes(case["recipe"]):
         if n["k"] in CLASSES:
             ctx.count("count:class:" + n["k"])
